@@ -53,6 +53,8 @@ def make_states(r):
         d = r.choice(["", "", "src/", "a/", "b/", "docs/api/", "dir with space/"])
         paths.append((d + "f%d.%s" % (fi, suffix), suffix))
     states = {}
+    # the block names of some files contain a colon (`f0b:3`): a reference is split at its *first* colon, file before, name after
+    prefixes = [("f%db:" if r.random() < 0.2 else "f%db") % fi for fi in range(nfiles)]
     for fi, (path, suffix) in enumerate(paths):
         def affects_fn(idx, fi=fi):
             if r.random() > 0.5:
@@ -61,7 +63,7 @@ def make_states(r):
             for _ in range(r.choice([1, 1, 2, 3])):
                 fj = r.randrange(nfiles)
                 k = r.randint(0, 4)
-                name = "f%db%d" % (fj, k)
+                name = "%s%d" % (prefixes[fj], k)
                 x = r.random()
                 if x < 0.08:
                     refs.append("%s:%s" % (r.choice(["nope.py", "missing/dir/x.rs"]), name))
@@ -73,7 +75,7 @@ def make_states(r):
             sep = r.choice([",", ", ", " , "])
             return sep.join(refs)
 
-        st = difflab.gen_state(r, path, suffix, "f%db" % fi, affects_fn=affects_fn, dup_rate=0.35 if r.random() < 0.3 else 0.0,
+        st = difflab.gen_state(r, path, suffix, prefixes[fi], affects_fn=affects_fn, dup_rate=0.35 if r.random() < 0.3 else 0.0,
                                sentinel=r.random() < 0.5)
         states[path] = st
     return states
